@@ -12,7 +12,7 @@ def spread(n, s): return [s // n + (1 if i < s % n else 0) for i in range(n)]
 
 
 def cases(rng, tier):
-    for t in range(60 if tier == 'quick' else 2500):
+    for t in range(120 if tier == 'quick' else 2500):
         mp = rng.choice(['ha', 'sm', 'hr', 'spa'])
         n1 = rng.randint(1, 6); n2 = n1 if mp == 'sm' else rng.randint(1, 6); n3 = rng.randint(1, 5)
         pmax = rng.randint(1, n2); pmin = rng.randint(1, pmax)
